@@ -160,6 +160,55 @@ static void run_exactness(CaseCtx &c, Rng &rng, bool do_c03, bool do_c05){
     std::string err;
     if (!make_grid(g, cfg, go.max_points, &err) || g.getNumPoints() == 0){ emit_begin(c, cfg.json()); c.inconc("make-failed"); return; }
     emit_begin(c, cfg.json());
+    // One configuration in four (decided by a hash of the configuration, the random stream is not touched) reaches its final tensor set the other
+    // way: it is made one or two depth units smaller, gets values, and is enlarged by update*Grid() + loadNeededValues() - the path on which the
+    // 1-D rule wrapper is rebuilt while loaded values are kept.  The statement holds for the resulting grid like for any other.
+    if ((g.isGlobal() || g.isSequence() || g.isFourier()) && cfg.depth >= 1 && (std::hash<std::string>{}(cfg.json()) >> 5) % 4 == 0){
+        try{
+            Cfg lo = cfg; lo.depth = std::max(0, cfg.depth - 1 - (int)((std::hash<std::string>{}(cfg.json()) >> 9) % 2));
+            TasmanianSparseGrid h;
+            std::string e2;
+            if (make_grid(h, lo, go.max_points, &e2) && h.getNumPoints() > 0 && h.getNumPoints() < g.getNumPoints()){
+                // the values supplied in the two stages are those of one low-degree member of the SMALL grid's space (hence of the final one)
+                std::vector<int> kk((size_t) cfg.dims, 0);
+                bool poly = (h.isGlobal() || h.isSequence()) && !h.isSetConformalTransformASIN() && !(h.isGlobal() && !cfg.custom && h.getRule() == rule_clenshawcurtis0);
+                if (poly){
+                    std::vector<int> sp = h.getGlobalPolynomialSpace(true);
+                    for(size_t i=0; i<sp.size() / (size_t) cfg.dims; i++){
+                        int deg = 0; for(int j=0; j<cfg.dims; j++) deg += sp[i * (size_t) cfg.dims + (size_t) j];
+                        if (deg >= 1 && deg <= 2){ kk.assign(sp.begin() + (long)(i * (size_t) cfg.dims), sp.begin() + (long)((i + 1) * (size_t) cfg.dims)); if ((std::hash<std::string>{}(cfg.json()) >> 13) % 3 != 0) break; }
+                    }
+                }
+                Pull ph(h);
+                auto member = [&](const double *x)->double{ double v = 1.5; for(int j=0; j<cfg.dims; j++) for(int q=0; q<kk[(size_t) j]; q++) v *= ph.t(j, x[j]); return v; };
+                auto member_values = [&](std::vector<double> const &p)->std::vector<double>{
+                    std::vector<double> v; for(size_t i=0; i<p.size() / (size_t) cfg.dims; i++) v.push_back(member(&p[i * (size_t) cfg.dims])); return v; };
+                if (cfg.outs > 0){ std::vector<double> p = h.getNeededPoints(); h.loadNeededValues(member_values(p)); }
+                if (h.isGlobal()) h.updateGlobalGrid(cfg.depth, cfg.type, cfg.aw, cfg.limits);
+                else if (h.isSequence()) h.updateSequenceGrid(cfg.depth, cfg.type, cfg.aw, cfg.limits);
+                else h.updateFourierGrid(cfg.depth, cfg.type, cfg.aw, cfg.limits);
+                if (cfg.outs > 0 && h.getNumNeeded() > 0){ std::vector<double> p = h.getNeededPoints(); h.loadNeededValues(member_values(p)); }
+                bool cc0_rule = (h.isGlobal() && !cfg.custom && h.getRule() == rule_clenshawcurtis0); // spans (1-t^2) P: constants are not members (F-cc0)
+                if (cfg.outs > 0 && h.getNumLoaded() > 0 && !h.isSetConformalTransformASIN() && !cc0_rule){
+                    // the surrogate assembled from the two deliveries reproduces the member (conditioning from the library's own weights)
+                    Rng r2((uint64_t) std::hash<std::string>{}(cfg.json())); std::vector<double> pr = c03_probes(h, r2, false);
+                    std::vector<double> nodes = h.getLoadedPoints(); double fmax = 0; for(size_t i=0; i<nodes.size() / (size_t) cfg.dims; i++) fmax = std::max(fmax, std::fabs(member(&nodes[i * (size_t) cfg.dims])));
+                    for(size_t q=0; q<pr.size() / (size_t) cfg.dims && q < 8; q++){
+                        std::vector<double> x(pr.begin() + (long)(q * (size_t) cfg.dims), pr.begin() + (long)((q + 1) * (size_t) cfg.dims)), y;
+                        h.evaluate(x, y);
+                        std::vector<double> w = h.getInterpolationWeights(x); double lam = 0; for(double t : w) lam += std::fabs(t);
+                        if (!std::isfinite(lam) || lam > 1e8) continue;
+                        double exact = member(x.data());
+                        c.count("update_path_member_probes");
+                        if (!(std::fabs(y[0] - exact) <= 1e4 * std::numeric_limits<double>::epsilon() * (lam + 1.0) * (fmax + std::fabs(exact)))){
+                            c.viol("update-path:member-of-the-space-not-reproduced-after-update-and-load:" + std::string(fam_name(cfg.family)) + ":" + (cfg.custom ? std::string("custom-tabulated") : rname(h.getRule())),
+                                   J().vec("x", x).num("evaluate", y[0]).num("exact", exact).num("lebesgue", lam).obj()); return; }
+                    }
+                }
+                if (h.getNumPoints() == g.getNumPoints()){ g = std::move(h); c.count("grids_grown_by_update"); }
+            }
+        }catch(std::exception &e){ c.viol("update-path:exception:" + exception_class(e), J().str("what", e.what()).obj()); return; }
+    }
     int d = cfg.dims;
     std::string rn = cfg.custom ? std::string("custom-tabulated") : rname(g.getRule());
     std::string cls = std::string(fam_name(cfg.family)) + ":" + rn;
@@ -263,6 +312,7 @@ static void run_exactness(CaseCtx &c, Rng &rng, bool do_c03, bool do_c05){
                 std::vector<double> w = g.getInterpolationWeights(&probes[q * (size_t) d]);
                 double s = 0, a = 0; for(double v : w){ s += v; a += std::fabs(v); }
                 double tol = 4e3 * EPS3 * (a + 1.0) * (double)(d + 1) + ((g.isWavelet() || g.isSetConformalTransformASIN()) ? 1e-8 * a : 0.0);
+                if (g.isFourier()) tol += 64.0 * EPS3 * (double) g.getNumPoints() * a; // closed-form weights next to a node lose digits in proportion to the number of modes (3.9e-12 seen with 729 points)
                 if (g.isLocalPolynomial() && (g.getOrder() == 0)) continue; // piecewise constants: covered by the affine clause only for order != 0
                 if (g.isLocalPolynomial()){ bool lim0 = false; for(int l : cfg.limits) if (l == 0 && g.getRule() != rule_localpb) lim0 = true; if (lim0 && false) continue; }
                 if (!(std::fabs(s - 1.0) <= tol)){
@@ -289,6 +339,12 @@ static bool fd_check(TasmanianSparseGrid const &g, CaseCtx &c, Rng &rng, std::st
     for(size_t q=0; q<np; q++){
         std::vector<double> x(probes.begin() + (long)(q * (size_t) d), probes.begin() + (long)((q + 1) * (size_t) d));
         std::vector<double> jac; g.differentiate(x, jac);
+        {   // the Jacobian does not depend on what the output buffer held before the call (raw array, and a vector that is used again)
+            std::vector<double> jraw((size_t) m * (size_t) d, 777.0); g.differentiate(x.data(), jraw.data());
+            std::vector<double> jre((size_t) m * (size_t) d, -3.5); g.differentiate(x, jre);
+            for(size_t t=0; t<jac.size(); t++) if (!same_bits(jac[t], jraw[t]) || !same_bits(jac[t], jre[t])){
+                c.viol("differentiate:depends-on-previous-content-of-output-buffer:" + cls, J().vec("x", x).i("entry", (long long) t).num("fresh_vector", jac[t]).num("prefilled_raw_array", jraw[t]).num("reused_vector", jre[t]).obj()); return false; }
+        }
         for(int j=0; j<d; j++){
             double width = hi[(size_t) j] - lo[(size_t) j];
             // 6th order central differences with two step sizes; the step stays inside a fine cell of the local bases (probes sit in the middle 40% of 1/6144 cells)
